@@ -23,6 +23,10 @@ SRC = os.path.join(VERIF, "src")
 EVID = os.path.join(VERIF, "evidence") if os.path.realpath(REPO) == "/repo" and not COV else os.path.join(BUILD, "evidence-scratch")
 REPLAY = os.path.join(VERIF, "replay")
 NCPU = os.cpu_count() or 8
+# scratch trees build under their own lock and their own generated-header directory, so that bin/run_seeded -j N compiles
+# in parallel (object names already contain the tree's path through the -I flag)
+TREE_KEY = "" if os.path.realpath(REPO) == "/repo" else "-" + hashlib.sha256(os.path.realpath(REPO).encode()).hexdigest()[:10]
+GEN = os.path.join(BUILD, "gen" + TREE_KEY)
 
 CXX = "clang++-14"
 BASE_FLAGS = [
@@ -30,7 +34,7 @@ BASE_FLAGS = [
     "-fsanitize=address,undefined", "-fno-sanitize-recover=all",
     "-fno-sanitize=object-size",
     "-Wno-deprecated-declarations",
-    "-I", os.path.join(REPO, "include"), "-I", SRC, "-I", os.path.join(BUILD, "gen"),
+    "-I", os.path.join(REPO, "include"), "-I", SRC, "-I", GEN,
     "-DBOOST_MQTT5_VERIF", "-DBOOST_ASIO_DISABLE_EPOLL",
     "-DBOOST_ENABLE_ASSERT_HANDLER",
 ]
@@ -129,7 +133,7 @@ def gen_preincludes():
                 if m and not m.group(1).startswith("boost/mqtt5") and "beast" not in m.group(1) and "/ssl" not in m.group(1) and "openssl" not in m.group(1):
                     inc.add(m.group(1))
     txt = "// generated by lib/vlib.py from /repo/include\n#pragma once\n" + "".join("#include <%s>\n" % i for i in sorted(inc))
-    d = os.path.join(BUILD, "gen")
+    d = GEN
     os.makedirs(d, exist_ok=True)
     p = os.path.join(d, "preincludes.hpp")
     if not os.path.exists(p) or open(p).read() != txt:
@@ -140,7 +144,7 @@ def build(names, verbose=True):
     """Builds the named targets from /repo's current working tree (incremental, content-hashed).
     Returns {name: exe path}."""
     os.makedirs(BUILD, exist_ok=True)
-    lock = open(os.path.join(BUILD, ".lock"), "w")
+    lock = open(os.path.join(BUILD, ".lock" + TREE_KEY), "w")
     fcntl.flock(lock, fcntl.LOCK_EX)
     try:
         gen_preincludes()
